@@ -143,3 +143,25 @@ Theorem C14_imperative_scalar_blocks_merge_variables_as_the_source_semantics :
   end.
 Proof. exact tsem_sem_imp_block. Qed.
 Print Assumptions C14_imperative_scalar_blocks_merge_variables_as_the_source_semantics.
+
+(* ------------------------------------------------------------------ the same for the FULL
+   fragment (values of every type, aggregates, dynamic indexing, assignment through accessor
+   chains, loops over arrays and ranges, patterns, match; Compile/TSemSemFull.v): after a block,
+   every variable of the enclosing scopes holds the encoding of the value the source semantics
+   gives it - after if/else and match the value assigned on the path actually taken, after a loop
+   the value of the last iteration; nested writes change exactly the addressed element (Sem.v's
+   write_path); values are copied, never shared (Sem.v is by-value). *)
+From GV Require Import Compile.ValEnc Compile.TSemSemAgg Compile.TSemSemFull Lang.ValTy.
+
+Theorem C14_full_fragment_blocks_merge_variables_as_the_source_semantics :
+  forall P fuel fw g b t en E fT w E' o',
+  enums_small P = true -> scf_block fw P ([] :: g) b = Some t -> env_rel3 (VRa P) en E g ->
+  lower_block tops fT P b E None = Ok ((w, E'), o') ->
+  match Sem.obind (Sem.exec_block fuel P (Sem.push_scope en) b)
+                  (fun '(v, en1) => Sem.Done (v, Sem.pop_scope en1)) with
+  | Sem.Done (v, en') => o' = None /\ VRa P t v w /\ env_rel3 (VRa P) en' E' g
+  | Sem.Panicked r m => o' = Some (preason_num (pr r), PanicSem.ploc32 (ploc_of m))
+  | Sem.Stuck _ | Sem.NoFuel => True
+  end.
+Proof. exact tsem_sem_full_block. Qed.
+Print Assumptions C14_full_fragment_blocks_merge_variables_as_the_source_semantics.
